@@ -100,7 +100,9 @@ impl NumSem {
                 "mod" => if y != 0 { one(NV::I(x % y)) } else { fb((x as f64) % (y as f64)) },
                 "pow" => {
                     if y < 0 { return Err(Stop::Unspec("NegativeIntegerExponent")); }
-                    if y > max_exp(w) { return Err(Stop::Unspec("PowExponentOutOfRange")); }
+                    // an exponent beyond 0..4294967295: the Float obtained from the operands' double values (C09), whatever its variant;
+                    // at the small word sizes of the TLC vectors the fallback is not modelled
+                    if y > max_exp(w) { if w < 64 { return Err(Stop::Unspec("PowExponentOutOfRange")); } return Ok(either(w, (x as f64).powf(y as f64))); }
                     match pow_chk(w, x, y) { Ok(v) => one(NV::I(v)), Err(_) => fb((x as f64).powf(y as f64)) }
                 }
                 _ => Err(Stop::Unspec("UnknownBinary")),
